@@ -75,7 +75,7 @@ def materialise(case, seed, which):
         rnd.shuffle(order)
     rr = [rows[i] for i in order]
     L = case["L"]
-    mode = which % 7
+    mode = which % 8
     if mode in (0, 1):
         level = [l / (L - 1) if L > 1 else 0.0 for l in range(L)]
     elif mode in (2, 3):  # monotone re-mapping to arbitrary finite floats
@@ -89,6 +89,10 @@ def materialise(case, seed, which):
         level = [base + i * 2e-7 for i in range(L)]
     elif mode == 6:       # integer-like scores centred at zero: thresholds (midpoints) can be exactly 0.0 or negative
         level = [float(i) - (L - 1) / 2.0 for i in range(L)] if rnd.random() < 0.5 else [float(2 * i - (L - 1)) for i in range(L)]
+    elif mode == 7:       # chains of nearly tied scores with uneven gaps around the usual float tolerances
+        top = rnd.choice([1.0, 0.37, 250.0])
+        offs = [0.0, 0.9e-5, 1.2e-5, 2.9e-5, 3.1e-5, 0.5][:L]
+        level = sorted(top * (1.0 - o) for o in offs)
     else:                 # large magnitude, small absolute gaps
         base = rnd.choice([24.51, -1.0e4, 3.0e6])
         level = [base + i * abs(base) * 4e-6 for i in range(L)]
@@ -266,9 +270,9 @@ def explore(ck, want_c10=False, per_case=None, quick_gs=None):
         if len(c["rows"]) >= 7:
             chosen = chosen + [x for x in allc if x[0] == "eo" and x not in chosen]
         for j, conf in enumerate(chosen):
-            jobs.append((c, conf, ck.seed, (i + j) % 7, want_c10 and j % 8 == 0, None))
+            jobs.append((c, conf, ck.seed, (i + j) % 8, want_c10 and j % 8 == 0, None))
         # grid_size 1000 (replay only): must equalise, and be at least as good as every emitted grid dividing 1000
         conf = rnd.choice(allc)
-        jobs.append((c, conf, ck.seed, (i % 7), False, 1000))
+        jobs.append((c, conf, ck.seed, (i % 8), False, 1000))
     recs = pmap(_job, jobs)
     return cases, jobs, recs
